@@ -1,3 +1,4 @@
+#include <float.h>
 /* Precision template: define exactly one of PREC_S PREC_D PREC_C PREC_Z, include this header, then
  * include the family's .inc body; afterwards include "unprec.h". */
 #if defined(PREC_S)
@@ -13,6 +14,8 @@
 #define FX(name) name##_s      /* harness-side per-precision symbol */
 #define DTYPE SLU_S
 #define MACH smach
+#define ARITH_EPS (FLT_EPSILON * 0.5f)   /* constants of the arithmetic, not what the library reports */
+#define ARITH_SML FLT_MIN
 #define RE(x) (x)
 #define IM(x) (0.0f)
 #define MKS(re_, im_) ((float)(re_))
@@ -29,6 +32,8 @@
 #define FX(name) name##_d
 #define DTYPE SLU_D
 #define MACH dmach
+#define ARITH_EPS (DBL_EPSILON * 0.5)
+#define ARITH_SML DBL_MIN
 #define RE(x) (x)
 #define IM(x) (0.0)
 #define MKS(re_, im_) ((double)(re_))
@@ -45,6 +50,8 @@
 #define FX(name) name##_c
 #define DTYPE SLU_C
 #define MACH smach
+#define ARITH_EPS (FLT_EPSILON * 0.5f)   /* constants of the arithmetic, not what the library reports */
+#define ARITH_SML FLT_MIN
 #define RE(x) ((x).r)
 #define IM(x) ((x).i)
 #define MKS(re_, im_) ((singlecomplex){(float)(re_), (float)(im_)})
@@ -61,6 +68,8 @@
 #define FX(name) name##_z
 #define DTYPE SLU_Z
 #define MACH dmach
+#define ARITH_EPS (DBL_EPSILON * 0.5)
+#define ARITH_SML DBL_MIN
 #define RE(x) ((x).r)
 #define IM(x) ((x).i)
 #define MKS(re_, im_) ((doublecomplex){(double)(re_), (double)(im_)})
